@@ -14,8 +14,14 @@ Oracle (independent of the model): parent/child agreement both ways, no duplicat
 detached-after-remove, removeAll/setChildren postconditions, every traversal against a naive walk of the raw child
 lists, container protocol, copy clauses (every owner of a grid re-linked, every locator -- index, coordinate,
 multi-index cells -- on the copy's grid, reactor's ex-core registry).
-Excluded points (F4): add of an already-parented object, remove of a non-child, append/extend, a cycle;
-shared cells of a detached multi-index location.
+Caller side (C01-c): every list a query hands back is mutated in place or kept across later edits (the tree must not
+notice / the result must not change), the idioms `order = x.getChildren(); <permute>; x.setChildren(order)` and
+`for c in x.getChildren(): x.remove(c)` are ops.  Query - edit - query (C01-d): after every edit a battery of all
+direct-children queries runs on the parent just edited and the next edit is steered to the same parent; setType / flag
+changes and clearCache() are part of the histories.  A raise out of the real code is a keyed failure (op-raises /
+query-raises / copy-raises), never an infrastructure failure.
+Excluded points (F4): add of an already-parented object, remove of a non-child, append/extend, a cycle.  Regression
+points of repaired defects: shared cells of a detached multi-index location, a reactor's ex-core registry after deepcopy.
 """
 import copy
 import os
